@@ -93,12 +93,14 @@ def ce_case(ctx, c):
                 now = c - (ethr + dn)
                 env.Clock.now = now
                 want = c - now < ethr
-                for verify in (False, True):
+                # the epoch window is measured against the verifier clock: the execution timestamp in the cache
+                # (absent, zero, far past, far future) must not matter
+                for verify, tsv in ((False, None), (True, None), (False, 0), (False, now - 1000), (True, now + 1000)):
                     n += 1
                     code = pushc(enc) + op('CHECK_EPOCH_VERIFY' if verify else 'CHECK_EPOCH')
-                    r, st, _ = run(code, {}, additional_flags={'epoch_threshold': ethr})
+                    r, st, _ = run(code, {} if tsv is None else {'timestamp': max(tsv, 0)}, additional_flags={'epoch_threshold': ethr})
                     ctx.ran(); ctx.trans(2)
-                    ctx.state(('ce', c, len(enc), ethr, dn, verify))
+                    ctx.state(('ce', c, len(enc), ethr, dn, verify, None if tsv is None else tsv - now))
                     if verify:
                         g = 'raise' if r is not None else 'ok' if st == [] else 'other'
                         ok = g == ('ok' if want else 'raise')
@@ -108,7 +110,7 @@ def ce_case(ctx, c):
                     ctx.outcome(('CEV:' if verify else 'CE:') + g[:5])
                     if not ok:
                         ctx.violation({'op': 'CHECK_EPOCH_VERIFY' if verify else 'CHECK_EPOCH', 'clause': 'window', 'got': g[:5]},
-                                      f'c={c} enc={enc.hex()} ethr={ethr} now={now}: want {want}, got {g} {r!r}')
+                                      f'c={c} enc={enc.hex()} ethr={ethr} now={now} cache timestamp={tsv}: want {want}, got {g} {r!r}')
         # default threshold (60) without additional flags
         for dn in range(-2, 3):
             now = c - (60 + dn)
